@@ -92,6 +92,7 @@ pub fn blocks(thorough: bool) -> Vec<Block> {
         b.push(Block::new(u_long_rep(30), vec![Cfg::new(R), Cfg::new(R | NA | NE)], "r, r+na+ne"));
         b.push(Block::new(u_nested_rep(), vec![Cfg::new(R), Cfg::new(R | X)], "r, r+x"));
         b.push(Block::new(u_prefix_suffix2(4), vec![Cfg::new(D), Cfg::new(R), Cfg::new(W | R)], "d, r, w+r"));
+        b.push(Block::new(u_feature_rich(), full.clone(), "Lambda_full (no u,c): all 8,192 combinations"));
         b.push(Block::new(u_long_runs(40), vec![Cfg::new(R), Cfg::new(R | W), Cfg::new(0)], "r, r+w, {}"));
         b.push(Block::new(u_corpus("U_longstr", verif_seed() + 7, 4_000, &["a", "b", "c"], (1, 1), (40, 90)), vec![Cfg::new(R)], "r (corpus of long single strings)"));
     } else {
